@@ -718,8 +718,25 @@ func runC04(c *fw.Case) {
 		vkey := fmt.Sprintf("%s:null=%v:%s", class, nullEq, keyKinds)
 
 		var g qframe.Grouper
+		// the key list is the front part of a longer slice of the caller's (as when key lists are built by appending):
+		// what lies behind it belongs to the caller
+		backing := make([]string, len(keys), len(keys)+3)
+		copy(backing, keys)
+		tail := backing[len(keys):cap(backing)]
+		for i := range tail {
+			tail[i] = "callers-own-entry"
+		}
+		keyArg := backing[:len(keys)]
+		defer func(desc string) {
+			for _, s := range tail {
+				if s != "callers-own-entry" {
+					c.Fail("argument-changed", "%s: the caller's slice behind the key list was overwritten with %q", desc, tail)
+					break
+				}
+			}
+		}(desc)
 		if !c.GuardFail("groupby", desc, func() {
-			g = root.QF.GroupBy(groupby.Columns(keys...), groupby.Null(nullEq))
+			g = root.QF.GroupBy(groupby.Columns(keyArg...), groupby.Null(nullEq))
 		}) {
 			continue
 		}
